@@ -61,3 +61,31 @@ Lemma ex_edit_hyps_deep :
                  /\ text_of (node_toks r) = text_of (node_toks ex_open_num)
      | None => False end.
 Proof. vm_compute. auto 10. Qed.
+
+(* ---- item removal and insertion: `USD, EUR` -> pop(0) -> `EUR` -> insert(1, copy of USD) -> `EUR, USD` ---- *)
+Definition ex_seps : list tk := [mktk 201 "_COMMA" ","; mktk 202 "WHITESPACE" " "].
+Definition ex_popped : option (node * node) := remove_item ex_open_num [] "_currencies" 0%nat.
+Definition ex_reinserted : option node :=
+  match ex_popped with
+  | Some (x, r) => insert_item r [] "_currencies" 1%nat ex_seps (clone all_classes 0 ex_fresh x)
+  | None => None
+  end.
+Definition ids_nodup_b (l : list tk) : bool :=
+  forallb (fun t => Nat.eqb (length (filter (fun t' => k_id t =? k_id t') l)) 1) l.
+Lemma ex_item_hyps :
+  match ex_popped with
+  | Some (x, r) =>
+      hwf_b all_classes r = true /\ hwf_b all_classes x = true /\ conforms all_classes x = true
+      /\ hwf_b all_classes (clone all_classes 0 ex_fresh x) = true
+      /\ exempt (UNode (clone all_classes 0 ex_fresh x)) = false
+      /\ forallb (fun t => negb (significant t)) ex_seps = true
+      /\ ids_nodup_b (ex_seps ++ node_toks (clone all_classes 0 ex_fresh x)) = true
+      /\ forallb (fun t => forallb (fun t' => negb (k_id t =? k_id t')) (node_toks r))
+                 (ex_seps ++ node_toks (clone all_classes 0 ex_fresh x)) = true
+      /\ length (node_toks r) = (length (node_toks ex_open_num) - 3)%nat
+  | None => False end
+  /\ match ex_reinserted with
+     | Some r2 => hwf_b all_classes r2 = true /\ conforms all_classes r2 = true
+                  /\ length (node_toks r2) = length (node_toks ex_open_num)
+     | None => False end.
+Proof. vm_compute. auto 20. Qed.
